@@ -102,7 +102,6 @@ def fire (p : Pool) (o : Obj) : Pool :=
 def finEvs (k : Kind) (l : List Entry) : List TEv := l.map (fun e => .fin k e.val e.order)
 def relEvs (k : Kind) (l : List Entry) : List TEv := l.map (fun e => .rel k e.val e.order)
 def skipEvs (l : List Entry) : List TEv := l.map (fun e => .skip e.val e.order)
-def droppedEvs (l : List Entry) : List TEv := l.map (fun e => .dropped e.val e.order)
 
 /-- `ExtractPendingFinalize` -/
 def xPF (p : Pool) : Pool :=
@@ -114,25 +113,25 @@ def xPF (p : Pool) : Pool :=
 def xPR (p : Pool) : Pool :=
   { p with pr := [], tr := p.tr ++ relEvs .pr (sortDesc p.pr) }
 
-/-- what `ExtractAllMarkedFinalize` returns -/
+/-- what `ExtractAllMarkedFinalize` returns: the values whose Go finaliser has already run and that
+    still await their `__gc` (`pendingFinalize`; they are flagged in the register, so the filter skips
+    them) plus every register entry not yet flagged -/
 def afOut (p : Pool) : List Entry :=
-  match p.reg with
-  | none => []
-  | some rg => sortDesc (rg.filter (fun e => e.fin = false))
+  sortDesc (p.pf ++ (p.reg.getD []).filter (fun e => e.fin = false))
 
-/-- state after `ExtractAllMarkedFinalize` (pendingFinalize is DISCARDED) -/
+/-- state after `ExtractAllMarkedFinalize` -/
 def afState (p : Pool) : Pool :=
   { p with pf := [], reg := p.reg.map setFinAll }
 
 /-- `ExtractAllMarkedFinalize`, results handed to the finalisers -/
 def xAF (p : Pool) : Pool :=
   let q := afState p
-  { q with tr := q.tr ++ droppedEvs p.pf ++ finEvs .af (afOut p) }
+  { q with tr := q.tr ++ finEvs .af (afOut p) }
 
 /-- `ExtractAllMarkedFinalize`, results thrown away (`PopContext`) -/
 def skipAF (p : Pool) : Pool :=
   let q := afState p
-  { q with tr := q.tr ++ skipEvs p.pf ++ skipEvs (afOut p) }
+  { q with tr := q.tr ++ skipEvs (afOut p) }
 
 /-- what `ExtractAllMarkedRelease` returns -/
 def arOut (p : Pool) : List Entry :=
